@@ -195,32 +195,32 @@ var wipePrims = map[string]bool{"wipeBytes": true, "wipeBigInt": true, "wipeSecr
 
 // external functions that write through an argument: name -> indices of written arguments (receiver = 0)
 var extWrites = map[string][]int{
-	"(encoding/binary.bigEndian).PutUint16": {1},
-	"(encoding/binary.bigEndian).PutUint32": {1},
-	"(encoding/binary.bigEndian).PutUint64": {1},
-	"io.ReadFull":                                  {1},
-	"encoding/hex.Decode":                          {0},
-	"(*encoding/base64.Encoding).Encode":           {1},
-	"(*encoding/base64.Encoding).Decode":           {1},
-	"(*math/big.Int).SetBytes":                     {0},
-	"(*math/big.Int).Set":                          {0},
-	"(*math/big.Int).SetString":                    {0},
-	"(*math/big.Int).SetInt64":                     {0},
-	"(*math/big.Int).Mod":                          {0},
-	"(*math/big.Int).Mul":                          {0},
-	"(*math/big.Int).Sub":                          {0},
-	"(*math/big.Int).Add":                          {0},
-	"(*math/big.Int).Exp":                          {0},
-	"(*math/big.Int).ModInverse":                   {0},
-	"(*github.com/coyim/constbn.Int).SetBigInt":    {0},
-	"(*github.com/coyim/constbn.Int).ExpB":         {0},
-	"crypto/dsa.GenerateParameters":                {0},
-	"crypto/dsa.GenerateKey":                       {0},
-	"(*sync.RWMutex).Lock":                         {0},
-	"(*sync.RWMutex).Unlock":                       {0},
-	"(*sync.RWMutex).RLock":                        {0},
-	"(*sync.RWMutex).RUnlock":                      {0},
-	"(*sync.Once).Do":                              {0},
+	"(encoding/binary.bigEndian).PutUint16":     {1},
+	"(encoding/binary.bigEndian).PutUint32":     {1},
+	"(encoding/binary.bigEndian).PutUint64":     {1},
+	"io.ReadFull":                               {1},
+	"encoding/hex.Decode":                       {0},
+	"(*encoding/base64.Encoding).Encode":        {1},
+	"(*encoding/base64.Encoding).Decode":        {1},
+	"(*math/big.Int).SetBytes":                  {0},
+	"(*math/big.Int).Set":                       {0},
+	"(*math/big.Int).SetString":                 {0},
+	"(*math/big.Int).SetInt64":                  {0},
+	"(*math/big.Int).Mod":                       {0},
+	"(*math/big.Int).Mul":                       {0},
+	"(*math/big.Int).Sub":                       {0},
+	"(*math/big.Int).Add":                       {0},
+	"(*math/big.Int).Exp":                       {0},
+	"(*math/big.Int).ModInverse":                {0},
+	"(*github.com/coyim/constbn.Int).SetBigInt": {0},
+	"(*github.com/coyim/constbn.Int).ExpB":      {0},
+	"crypto/dsa.GenerateParameters":             {0},
+	"crypto/dsa.GenerateKey":                    {0},
+	"(*sync.RWMutex).Lock":                      {0},
+	"(*sync.RWMutex).Unlock":                    {0},
+	"(*sync.RWMutex).RLock":                     {0},
+	"(*sync.RWMutex).RUnlock":                   {0},
+	"(*sync.Once).Do":                           {0},
 }
 
 // Effects computes, bottom-up to a fixpoint, the write/wipe effects of every library function
